@@ -13,7 +13,7 @@ include!("store_common.rs");
 //@ mem: 20
 //@ covers: any
 //@ unwindset: put_bytes=80; heed::bytes_=260; heed::Table=6; memcmp.0=70; repeat::Repeat=190; Repeat.*try_fold=190; mmap_append=200; read_hex=34; enc_tags=6
-//@ cbmc: --max-field-sensitivity-array-size 800
+//@ cbmc: --max-field-sensitivity-array-size 1100
 //@ encodes: Store::store_event (ephemeral branch), Kind::is_ephemeral, Store::has_event
 //@ bounds: fresh store; one event without tags whose kind is ARBITRARY in 19990..=30010 (both boundaries of the ephemeral range) but not replaceable: the store succeeds, and the event is retrievable by id iff its kind is outside 20000..=29999; no deletion marker appears
 //@ outside: vanish (two query sweeps plus removals: out of budget), removal among several events (thorough)
@@ -30,5 +30,41 @@ store_harness!(c18_ephemeral_kinds, {
     let eph = k >= 20000 && k <= 29999;
     assert!(has(&store, &ID_A) == !eph);
     assert!(!ok!(store.event_is_deleted(Id::from_bytes(ID_A))));
+    core::mem::forget(store);
+});
+
+//@ harness: c18_remove_exactly_one
+//@ tier: quick
+//@ timeout: 2400
+//@ mem: 16
+//@ covers: none
+//@ unwindset: put_bytes=80; heed::bytes_=260; heed::Table=6; memcmp.0=70; repeat::Repeat=190; Repeat.*try_fold=190; mmap_append=200; enc_tags=6
+//@ cbmc: --max-field-sensitivity-array-size 1100
+//@ encodes: Store::remove_event, Store::remove_by_id, Store::remove_by_offset, Lmdb::deindex, Store::has_event, Store::event_is_deleted
+//@ bounds: two events of different authors with arbitrary created_at in 4096..=4351 each (one arbitrary byte each: earlier, equal, later) are in the store (seeded); remove_event of the first: it is no longer retrievable, carries no deletion marker, the second is still retrievable byte-identical; removing an absent id changes nothing
+store_harness!(c18_remove_exactly_one, {
+    let store = verif_store();
+    // one arbitrary byte each (all three orders of the two times): 64-bit arbitrary times make
+    // every index key byte symbolic and did not finish
+    let l1: u8 = kani::any();
+    let l2: u8 = kani::any();
+    let t1: u64 = 0x1000 + l1 as u64;
+    let t2: u64 = 0x1000 + l2 as u64;
+    let mut b1 = [0u8; 160];
+    let n1 = enc_event_img(1, t1, &ID_A, &PK_1, &SIG_0, &[], b"", b"x", &mut b1);
+    let mut b2 = [0u8; 160];
+    let n2 = enc_event_img(1, t2, &ID_B, &PK_2, &SIG_0, &[], b"", b"y", &mut b2);
+    let _ = seed_stored(&store, as_event(&b1[..n1]));
+    let _ = seed_stored(&store, as_event(&b2[..n2]));
+    ok!(store.remove_event(Id::from_bytes(ID_A)));
+    assert!(!has(&store, &ID_A) && has(&store, &ID_B));
+    assert!(!ok!(store.event_is_deleted(Id::from_bytes(ID_A))));
+    let other = some!(ok!(store.get_event_by_id(Id::from_bytes(ID_B))));
+    assert!(other.as_bytes().len() == n2 && other.created_at().as_u64() == t2 && other.content()[0] == b'y');
+    ok!(store.remove_event(Id::from_bytes(ID_C)));
+    assert!(has(&store, &ID_B));
+    let s = ok!(store.stats());
+    assert!(s.index_stats.i_index_entries == 1 && s.index_stats.ci_index_entries == 1 && s.index_stats.deleted_index_entries == 0);
+    core::mem::forget(s);
     core::mem::forget(store);
 });
